@@ -522,3 +522,88 @@ Proof.
     rewrite IH, app_length. lia. }
   rewrite Hsum. fold (bytes_of (write_val t v)). rewrite (proj1 write_is_tree t v Ht). lia.
 Qed.
+
+(* ---------- no allocation request is sized by a length field: every reservation of every reader is capped by the window ---------- *)
+Lemma rb_read_unsigned : rbounded read_unsigned.
+Proof. unfold read_unsigned. apply rbounded_bind; [apply rb_read_type|]. intros [m ai]. cbn [fst snd]. destruct m; try apply rb_throw. destruct (28 <=? ai); [constructor|apply rb_read_int]. Qed.
+Lemma rb_read_negative : rbounded read_negative.
+Proof.
+  unfold read_negative. apply rbounded_bind; [apply rb_read_type|]. intros [m ai]. cbn [fst snd]. destruct m; try apply rb_throw.
+  destruct (28 <=? ai); [constructor|]. apply rbounded_bind; [apply rb_read_int|]. intros v. constructor.
+Qed.
+Lemma rb_read_integer : rbounded read_integer.
+Proof.
+  unfold read_integer. apply rbounded_bind; [apply rb_peek_type|]. intros [m|]; [|constructor]. destruct m; try apply rb_throw.
+  - apply rbounded_bind; [apply rb_read_unsigned|]. intros v. constructor.
+  - apply rb_read_negative.
+Qed.
+Lemma rb_read_bool : rbounded read_bool.
+Proof.
+  unfold read_bool. apply rbounded_bind; [apply rb_read_type|]. intros [m ai]. cbn [fst snd]. destruct m; try apply rb_throw.
+  - destruct (28 <=? ai); [constructor|]. apply rbounded_bind; [apply rb_read_int|]. intros v. constructor.
+  - destruct ((ai =? 20) || (ai =? 21)); constructor.
+Qed.
+Lemma rb_read_xstart m : rbounded (read_xstart m).
+Proof.
+  unfold read_xstart. apply rbounded_bind; [apply rb_read_type|]. intros [m' ai]. cbn [fst snd].
+  destruct (negb (major_eqb m' m)); [constructor|]. destruct (bad_ai ai); [constructor|]. destruct (ai =? 31); [constructor|].
+  apply rbounded_bind; [apply rb_read_int|]. intros n. constructor.
+Qed.
+Lemma rb_read_time : rbounded read_time.
+Proof.
+  unfold read_time. apply rbounded_bind; [apply rb_read_xstart|]. intros [n indef]. destruct indef.
+  - apply rbounded_bind; [apply rb_peek_type|]. intros [m|]; [|apply rbounded_bind; [apply rb_read_break|]; intros; constructor].
+    apply rbounded_bind; [apply rb_read_unsigned|]. intros s.
+    apply rbounded_bind; [apply rb_peek_type|]. intros [m2|]; [|apply rbounded_bind; [apply rb_read_break|]; intros; constructor].
+    apply rbounded_bind; [apply rb_read_unsigned|]. intros k.
+    apply rbounded_bind; [apply rb_peek_type|]. intros [m3|]; [constructor|]. apply rbounded_bind; [apply rb_read_break|]. intros; constructor.
+  - destruct (n =? 0); [constructor|]. apply rbounded_bind; [apply rb_read_unsigned|]. intros s.
+    destruct (n =? 1); [constructor|]. apply rbounded_bind; [apply rb_read_unsigned|]. intros k. destruct (n =? 2); constructor.
+Qed.
+Lemma rb_arr_loop rd : rbounded rd -> forall g n indef racc, rbounded (arr_loop rd g n indef racc).
+Proof.
+  intros Hr. induction g as [|g IH]; intros n indef racc; cbn [arr_loop]; destruct ((n =? 0) && negb indef); try constructor.
+  destruct indef.
+  - apply rbounded_bind; [apply rb_peek_type|]. intros [m|].
+    + apply rbounded_bind; [exact Hr|]. intros v. apply IH.
+    + apply rbounded_bind; [apply rb_read_break|]. intros; constructor.
+  - apply rbounded_bind; [exact Hr|]. intros v. apply IH.
+Qed.
+Lemma rb_map_loop rdk sk : (forall key i rd, rdk key = Some (i, rd) -> rbounded rd) -> rbounded sk ->
+  forall g n indef rec, rbounded (map_loop rdk sk g n indef rec).
+Proof.
+  intros Hk Hs. induction g as [|g IH]; intros n indef rec; cbn [map_loop]; destruct ((n =? 0) && negb indef); try constructor.
+  assert (Hbody : rbounded (key <- read_integer ;; match rdk key with
+                     | Some (i, rd) => v <- rd ;; map_loop rdk sk g (n - 1) indef (set_nth i (Some v) rec)
+                     | None => sk ;;; map_loop rdk sk g (n - 1) indef rec end)).
+  { apply rbounded_bind; [apply rb_read_integer|]. intros key. destruct (rdk key) as [[i rd]|] eqn:E.
+    - apply rbounded_bind; [eapply Hk; eauto|]. intros v. apply IH.
+    - apply rbounded_bind; [exact Hs|]. intros _. apply IH. }
+  destruct indef; [|exact Hbody].
+  apply rbounded_bind; [apply rb_peek_type|]. intros [m|]; [exact Hbody|]. apply rbounded_bind; [apply rb_read_break|]. intros; constructor.
+Qed.
+
+Lemma rb_read_val g :
+  (forall t, rbounded (read_val g t)) /\
+  (forall fs i key j rd, find_field g fs i key = Some (j, rd) -> rbounded rd).
+Proof.
+  apply ty_fields_ind.
+  - intros bits. cbn [read_val]. apply rbounded_bind; [apply rb_read_unsigned|]. intros; constructor.
+  - cbn [read_val]. apply rbounded_bind; [apply rb_read_integer|]. intros; constructor.
+  - cbn [read_val]. apply rbounded_bind; [apply rb_read_bool|]. intros; constructor.
+  - cbn [read_val]. apply rbounded_bind; [apply rb_read_xstring|]. intros; constructor.
+  - cbn [read_val]. apply rbounded_bind; [apply rb_read_xstring|]. intros; constructor.
+  - cbn [read_val]. apply rb_read_time.
+  - intros e IH. cbn [read_val]. unfold read_arr. apply rbounded_bind; [apply rb_read_xstart|]. intros st.
+    apply rbounded_bind; [apply rb_arr_loop; exact IH|]. intros; constructor.
+  - cbn [read_val]. unfold read_idx. apply rbounded_bind; [apply rb_read_xstart|]. intros st. constructor; [apply reserve_req_le|].
+    apply rbounded_bind; [apply rb_arr_loop|intros; constructor]. apply rbounded_bind; [apply rb_read_unsigned|]. intros; constructor.
+  - intros sk fs IH. cbn [read_val]. apply rbounded_bind; [apply rb_read_xstart|]. intros st.
+    apply rbounded_bind.
+    + apply rb_map_loop; [|apply rb_skip]. intros key i rd H. eapply IH. exact H.
+    + intros rec. destruct (mand_ok fs rec); constructor.
+  - intros i key j rd H. cbn in H. discriminate.
+  - intros k p t IHt r IHr i key j rd H. cbn [find_field] in H. destruct (key =? k)%Z.
+    + inversion H; subst. apply IHt.
+    + eapply IHr. exact H.
+Qed.
